@@ -4,6 +4,9 @@ import Acv.Model.Report
 import Acv.Model.Cli
 import Acv.Gen.Cli
 import Acv.Model.Peg
+import Acv.Model.Message
+import Acv.Model.ReportIds
+import Acv.Model.LexIndex
 import Acv.Gen.PathGrammar
 import Acv.Gen.Pipeline
 /-! protocol operations: one JSON case in, one JSON line out -/
@@ -133,6 +136,77 @@ def opC16 (j : Json) : R Json := do
       | none => "REJECT"
   return Json.mkObj [("result", Json.str result)]
 
+/-- c13: what the report must show for hostile profile text -/
+def opC13 (j : Json) : R Json := do
+  let name ← fldStr j "name"
+  let vname ← fldStr j "vname"
+  let message ← fldStr j "message"
+  let values ← (← fldArr j "values").mapM fun p => do
+    let a ← arr p
+    return ((← str a[0]!).toList, (← str a[1]!).toList)
+  let lookup (v : List Char) : List Char :=
+    match values.find? (fun p => p.1 == v) with
+    | some p => p.2
+    | none => "null".toList
+  let listvals ← (← fldArr j "listvals").mapM str
+  let quoteOf (s : String) : Json := Json.str (quote s)
+  let (segs, vars) := Msg.parseMessage message.toList
+  -- the format string ParseMessageExpression produces: raw text when there are no placeholders
+  let fmt := if vars.isEmpty then message else String.ofList (fmtString segs)
+  let rendered := Msg.specRender message.toList lookup
+  let viaPolicy := match Msg.evalMessage message.toList lookup with
+    | some r => Json.str (String.ofList r)
+    | none => Json.null
+  return Json.mkObj [
+    ("profileName", Json.str name),
+    ("shape", Json.str vname),
+    ("message", Json.str (String.ofList rendered)),
+    ("messageViaPolicy", viaPolicy),
+    ("msgFormat", Json.str fmt),
+    ("msgVars", jstrs (vars.map String.ofList)),
+    ("quoted", Json.mkObj (([name, vname, message] ++ listvals).map (fun s => (s, quoteOf s))))]
+
+instance : Inhabited J := ⟨J.leaf⟩
+
+/-- a report subtree as `defineIdRecursively` sees it: typed = has an `@type` key -/
+partial def toJ (j : Json) : J :=
+  match j with
+  | .obj kvs =>
+    let fields := kvs.toList
+    let typed := fields.any (fun (p : String × Json) => p.1 == "@type")
+    .obj typed ((fields.filter (fun (p : String × Json) => p.1 != "@type" && p.1 != "@id")).map (fun (p : String × Json) => (p.1, toJ p.2)))
+  | .arr xs => .arr (xs.toList.map toJ)
+  | _ => .leaf
+
+/-- c12: the ids `defineIdRecursively` must assign to the results of a report, and whether the result
+trees have the shape for which uniqueness is proved -/
+def opC12 (j : Json) : R Json := do
+  let lv ← fld j "levels"
+  let get (k : String) : R (List J) := do return (← fldArr lv k).map toJ
+  let vs ← get "violation"
+  let ws ← get "warning"
+  let is ← get "info"
+  let ids := (topIds vs ws is).map joinId
+  let wf := (vs ++ ws ++ is).all (fun t => WF t)
+  return Json.mkObj [("wf", Json.bool wf), ("ids", jstrs (sortStrs ids)), ("count", Json.num ids.length)]
+
+/-- c14: the location every reported target node must carry -/
+def opC14 (j : Json) : R Json := do
+  let nodeIds ← (← fldArr j "nodeIds").mapM str
+  let targets ← (← fldArr j "targets").mapM str
+  let root : Option String := match fldStr j "root" with | .ok s => some s | .error _ => none
+  let additional ← (← fldArr j "additional").mapM fun a => do
+    let xs ← arr a
+    return (← str xs[0]!, ← (← arr xs[1]!).toList.mapM str)
+  let entries ← (← fldArr j "entries").mapM fun e => do return (← fldStr e "element", ← fldStr e "value")
+  let d : Lex.Doc := { nodeIds, root, additional, entries }
+  let locs := targets.map fun t =>
+    (t, match d.location t with
+      | some l => Json.mkObj [("uri", Json.str l.uri),
+          ("nums", jstrs [toString l.startLine, toString l.startColumn, toString l.endLine, toString l.endColumn])]
+      | none => Json.null)
+  return Json.mkObj [("byFocus", Json.mkObj locs)]
+
 def runOp (j : Json) : R Json := do
   match ← fldStr j "op" with
   | "c01" => opC01 j
@@ -141,6 +215,9 @@ def runOp (j : Json) : R Json := do
   | "c03" => opC03 j
   | "cli" => opCli j
   | "c16" => opC16 j
+  | "c13" => opC13 j
+  | "c12" => opC12 j
+  | "c14" => opC14 j
   | op => throw s!"unknown op {op}"
 
 def handleLine (line : String) : String :=
